@@ -102,6 +102,16 @@ func init() {
 		"(*sync.WaitGroup).Done":  wgDone,
 		"(*sync.WaitGroup).Wait":  wgWait,
 		"(*sync.Once).Do":         onceDo,
+		// singleflight: one interpreted goroutine runs at a time and fetches do
+		// not block inside the engine, so a call is never in flight when
+		// another arrives: Do runs the function, Forget has nothing to drop
+		"(*golang.org/x/sync/singleflight.Group).Do": func(in *Interp, fr *frame, fn *ssa.Function, a []Value) (Value, bool) {
+			r := in.call(fr, a[2], nil).(Tuple)
+			return Tuple{r[0], r[1], SBool{V: false}}, true
+		},
+		"(*golang.org/x/sync/singleflight.Group).Forget": func(in *Interp, fr *frame, fn *ssa.Function, a []Value) (Value, bool) {
+			return nil, true
+		},
 
 		// ---- errors / fmt / math
 		"errors.Is":   errorsIs,
